@@ -10,8 +10,10 @@ from contextlib import contextmanager
 from stone.frontend.ir_generator import doc_ref_re
 from stone.ir import (
     is_alias,
+    is_tag_ref,
     resolve_aliases,
-    strip_alias
+    strip_alias,
+    unwrap_aliases
 )
 
 _MYPY = False
@@ -74,6 +76,10 @@ def remove_aliases_from_api(api):
         for data_type in namespace.data_types:
             for field in data_type.fields:
                 strip_alias(field)
+                # A tag default remembers the type the field was declared with
+                if getattr(field, 'has_default', False) and is_tag_ref(field.default):
+                    field.default.union_data_type, _ = unwrap_aliases(
+                        field.default.union_data_type)
         for route in namespace.routes:
             # Strip inner aliases
             strip_alias(route.arg_data_type)
